@@ -42,6 +42,8 @@ class Feat:
         self.max_rank = 5
         self.depth = 3              # expression depth
         self.tick = True
+        self.uncached_p = 4         # one in N cells is uncached
+        self.allow_none = False     # some cells allow (and sometimes return) None
         self.__dict__.update(kw)
 
 
@@ -299,8 +301,12 @@ def gen_cells_def(draw, G, space, name, feat, params=None):
          "cached": True, "allow_none": None,
          "form": draw(st.sampled_from(["lambda", "def"])) if feat.defform else "lambda",
          "tick": feat.tick}
-    if feat.uncached and draw(st.integers(0, 3)) == 0:
+    if feat.uncached and draw(st.integers(0, feat.uncached_p - 1)) == 0:
         c["cached"] = False
+    if feat.allow_none and draw(st.integers(0, 3)) == 0:
+        c["allow_none"] = True
+        if params and draw(st.integers(0, 1)) == 0:
+            c["expr"] = ["ifgt", ["var", params[0][0]], 1, ["none"], c["expr"]]
     return c
 
 
@@ -531,9 +537,12 @@ def gen_edit(draw, G, feat, kinds=None):
         key = draw(st.sampled_from(sorted(d, key=repr)))
         return draw(st.sampled_from([["clear_at", _jsid(sid), n, list(key)], ["clear_all", _jsid(sid), n]]))
     if kind == "set_ref":
-        n = draw(st.sampled_from(REF_NAMES))
-        mode = None
-        return ["set_ref", p, n, ["v", draw(st.integers(10, 99))], mode]
+        existing = [(list(t.path), n) for t in spaces for n in t.refs if n[0] == "r"]
+        if existing and draw(st.integers(0, 2)) != 0:
+            p, n = draw(st.sampled_from(existing))
+        else:
+            n = draw(st.sampled_from(REF_NAMES))
+        return ["set_ref", p, n, ["v", draw(st.integers(10, 99))], None]
     if kind == "shadow_ref":
         # a space-level name equal to a model-level one, or a sub-space name equal to a derived one
         names = [n for n in G.refs if n[0] == "g"] + [n for n in G.ref_names(s) if n not in s.refs]
